@@ -480,7 +480,34 @@ func (s *Sim) findDeadlock() {
 	lastDeadlock.Store(&deadlockRec{On: s.DeadlockOn, Detail: s.Deadlock})
 }
 
-type deadlockRec struct{ On, Detail string }
+type deadlockRec struct{ Kind, On, Detail string }
+
+// HeldAcrossWait is for the moment at which nothing is runnable and advancing the clock did not help: it reports
+// (and records as the run's verdict) a task that holds an instrumented lock while it is blocked outside any
+// scheduling point - waiting for something that only the tasks queueing for that very lock can provide.
+func (s *Sim) HeldAcrossWait() string {
+	s.mu.Lock()
+	defer s.mu.Unlock()
+	var waiters []*Task
+	for _, t := range s.tasks {
+		if t.Parked && !t.Done && !s.deadInst[t.Inst] && t.waitLock != nil {
+			waiters = append(waiters, t)
+		}
+	}
+	sort.Slice(waiters, func(i, j int) bool { return waiters[i].ID < waiters[j].ID })
+	for _, t := range waiters {
+		for _, h := range s.holders(t.waitLock, t, t.waitWrite) {
+			if h.Parked || h.Done || s.deadInst[h.Inst] {
+				continue
+			}
+			s.Deadlock = fmt.Sprintf("task t%d (%s) waits for the %s lock, held by t%d (%s), which is blocked itself outside any scheduling point and can only be woken by the tasks waiting for that lock; nothing is runnable and the clock was advanced", t.ID, t.Site, t.waitName, h.ID, h.Name)
+			s.DeadlockOn = t.waitName
+			lastDeadlock.Store(&deadlockRec{Kind: "held-across-wait", On: s.DeadlockOn, Detail: s.Deadlock})
+			return s.Deadlock
+		}
+	}
+	return ""
+}
 
 // ctrlBlocked is the panic value with which the controller abandons a run in which it would have to wait for a
 // lock held by a descheduled task.
